@@ -139,3 +139,10 @@ Theorem C07_no_history_any_state :
     (forall q, cache_inv gs (snd (step vf2b enum gs es q c))).
 Proof. exact no_history_any. Qed.
 Print Assumptions C07_no_history_any_state.
+
+(** the cache content the correspondence observes after a history: every entry is the WL-1 histogram of ITS graph under ITS node_attrs *)
+Theorem C07_cache_consistent :
+  forall vf2b enum gs es qs gi na h,
+    cache_get (gi, na) (end_cache vf2b enum gs es qs []) = Some h -> h = wl1_hash na (gnth gs gi).
+Proof. exact cache_consistent. Qed.
+Print Assumptions C07_cache_consistent.
